@@ -432,6 +432,7 @@ class Circuit:
                 ll.reader_pin = 0
             ll.reader.ins[ll.reader_pin] = ll
         for l, ll in zip(impl_out_lines, node_out_lines):  # connect outputs
+            if ll is not None and ll.circuit is None: ll = None  # line was removed above (it fed an ignored input of this very node)
             if ll is None:
                 if l.driver in node_map:
                     self.remove_dangling_nodes(node_map[l.driver])
